@@ -243,7 +243,7 @@ func (e *exporter) exportAttribute(att Attribute, dbcAtt *dbc.Attribute) {
 		dbcAtt.MinFloat = floatAtt.min
 		dbcAtt.MaxFloat = floatAtt.max
 
-		dbcAttDef.Type = dbc.AttributeDefaultString
+		dbcAttDef.Type = dbc.AttributeDefaultFloat
 		dbcAttDef.ValueFloat = floatAtt.defValue
 
 	case AttributeTypeEnum:
